@@ -327,44 +327,68 @@ func verbatimCopyGuards(c *Ctx, rule string, ds []*declInfo, srcType string) {
 func lifecyclePhaseRule(c *Ctx) {
 	const R = "lifecycle-phase-for-typed"
 	c.rule(R, "in the CycloneDX writer the store `lifecycle.Phase = sbomTypeToPhase(dt)` depends only on nil tests of dt.Type (and error checks): whether a typed document type carries a name does not decide whether its phase is written")
-	d := c.decl(R, cdxSer)
-	if d == nil {
+	if c.decl(R, cdxSer) == nil {
 		return
 	}
 	found := false
-	ast.Inspect(d.fd.Body, func(m ast.Node) bool {
-		as, ok := m.(*ast.AssignStmt)
-		if !ok || len(as.Rhs) != 1 {
-			return true
-		}
-		ce, isCall := as.Rhs[0].(*ast.CallExpr)
-		if !isCall || calleeBase(d, ce, "") != "sbomTypeToPhase" {
-			return true
-		}
-		found = true
-		chain := enclosing(d.fd.Body, as)
-		okAll := true
-		why := ""
-		for i, y := range chain {
-			ifs, isIf := y.(*ast.IfStmt)
-			if !isIf || i+1 >= len(chain) {
-				continue
+	// the store may sit in Serialize or in a helper it is split into
+	for _, d := range pkgFilter(c.reachDecls(R, cdxSer), "serializers.") {
+		ast.Inspect(d.fd.Body, func(m ast.Node) bool {
+			as, ok := m.(*ast.AssignStmt)
+			if !ok || len(as.Rhs) != 1 {
+				return true
 			}
-			for _, cj := range flattenBool(ifs.Cond) {
-				t := normText(types.ExprString(cj))
-				isTypeNil := strings.Contains(t, ".Type") && strings.Contains(t, "nil")
-				isErr := strings.Contains(t, "err")
-				if !isTypeNil && !isErr {
-					okAll, why = false, t
+			ce, isCall := as.Rhs[0].(*ast.CallExpr)
+			if !isCall || calleeBase(d, ce, "") != "sbomTypeToPhase" {
+				return true
+			}
+			found = true
+			chain := enclosing(d.fd.Body, as)
+			okAll := true
+			why := ""
+			for i, y := range chain {
+				ifs, isIf := y.(*ast.IfStmt)
+				if !isIf || i+1 >= len(chain) {
+					continue
+				}
+				for _, cj := range flattenBool(ifs.Cond) {
+					t := normText(types.ExprString(cj))
+					isTypeNil := strings.Contains(t, ".Type") && strings.Contains(t, "nil")
+					isErr := strings.Contains(t, "err")
+					if !isTypeNil && !isErr {
+						okAll, why = false, t
+					}
 				}
 			}
-		}
-		c.check(okAll, R, cdxSer+"#phase", c.P.Pos(as.Pos()), "the phase is written whenever the document type is typed",
-			fmt.Sprintf("whether the lifecycle phase is written depends on `%s`: a typed document type for which that condition goes the other way is written without its phase and reads back untyped", why))
-		return true
-	})
+			// early exits ahead of the store count as conditions too
+			// (only exits of the per-document-type code: inside the enclosing loop, or of the helper)
+			var scope ast.Node = d.fd.Body
+			for _, y := range chain {
+				switch l := y.(type) {
+				case *ast.RangeStmt:
+					scope = l.Body
+				case *ast.ForStmt:
+					scope = l.Body
+				}
+			}
+			for _, cond := range earlyExits(d, as) {
+				if cond.Pos() < scope.Pos() || cond.End() > scope.End() {
+					continue
+				}
+				for _, cj := range flattenBool(cond) {
+					t := normText(types.ExprString(cj))
+					if !(strings.Contains(t, ".Type") && strings.Contains(t, "nil")) && !strings.Contains(t, "err") && !strings.Contains(t, "nil") {
+						okAll, why = false, t
+					}
+				}
+			}
+			c.check(okAll, R, cdxSer+"#phase", c.P.Pos(as.Pos()), "the phase is written whenever the document type is typed",
+				fmt.Sprintf("whether the lifecycle phase is written depends on `%s`: a typed document type for which that condition goes the other way is written without its phase and reads back untyped", why))
+			return true
+		})
+	}
 	if !found {
-		c.undecided(R, cdxSer+"#phase", c.P.Pos(d.fd.Pos()), "no store of sbomTypeToPhase(…) into a lifecycle found")
+		c.undecided(R, cdxSer+"#phase", "-", "no store of sbomTypeToPhase(…) into a lifecycle found")
 	}
 }
 
